@@ -122,3 +122,53 @@ def must_separate(prev, nxt):
         return True
     # f-strings tokenize into several parts on 3.12; compare by re-joining
     return j != a + b
+
+
+# ---------------------------------------------------------------------- O5 symtable
+def scope_tables(source):
+    """[(path tuple of scope names, symtable)] for every scope of the program, depth first."""
+    top = symtable.symtable(source, 'probe', 'exec')
+    out = []
+
+    def rec(t, path):
+        out.append((path, t))
+        for c in t.get_children():
+            rec(c, path + (c.get_name(),))
+    rec(top, ())
+    return out
+
+
+def innermost_mention(source, name):
+    """Path of the innermost scope whose symbol table mentions `name` (deepest path; ties cannot happen for unique markers)."""
+    best = None
+    for (path, t) in scope_tables(source):
+        try:
+            t.lookup(name)
+        except KeyError:
+            continue
+        if best is None or len(path) > len(best):
+            best = path
+    return best
+
+
+def binding_scope(source, name):
+    """Path of the scope in which `name` is bound (assigned / parameter / imported), deepest first."""
+    best = None
+    for (path, t) in scope_tables(source):
+        try:
+            s = t.lookup(name)
+        except KeyError:
+            continue
+        if (s.is_assigned() or s.is_parameter() or s.is_imported()) and (s.is_local() or path == ()) and not s.is_free() and not (path != () and (s.is_global() or s.is_nonlocal())):
+            if best is None or len(path) > len(best):
+                best = path
+    if best is None:
+        # assigned in an inner scope that treats the name as global (assignment expression in a module-level comprehension)
+        for (path, t) in scope_tables(source):
+            try:
+                s = t.lookup(name)
+            except KeyError:
+                continue
+            if s.is_assigned() and s.is_global():
+                return ()
+    return best
